@@ -56,6 +56,11 @@ def check_round_trip(tier, seed):
                 a = "".join(a)
                 if a != ref and a not in alts:
                     alts.append(a)
+            if rng.random() < 0.25:
+                # soft-masked input: some columns (or all) in lower case, consistently in REF and every ALT
+                cols = [p for p in range(L) if rng.random() < 0.6]
+                lc = lambda x: "".join(ch.lower() if p in cols else ch for p, ch in enumerate(x))
+                ref, alts = lc(ref), [lc(a) for a in alts]
             recs.append((ref, alts))
         path = os.path.join(tmp, "in.vcf")
         with open(path, "w") as f:
